@@ -43,6 +43,28 @@ import functools
 __all__ = ["ProjectSettings", "Project"]
 
 
+def _n_steps(start: float, end: float, dt: float) -> int:
+    """
+    Return the number of timesteps needed to get from ``start`` to at least ``end``
+
+    The ratio ``(end-start)/dt`` is generally not exactly representable (e.g. ``0.3/0.1`` is ``2.9999999999999996``
+    and ``(5/12)/(1/12)`` is ``5.000000000000001``), so it is snapped to the nearest integer if it is within
+    rounding error of one, and only rounded up otherwise.
+
+    :param start: Start year
+    :param end: Requested end year
+    :param dt: Timestep
+    :return: Integer number of steps
+
+    """
+
+    n = (end - start) / dt
+    if abs(n - np.round(n)) < 1e-9 * max(1.0, abs(n)):
+        return int(np.round(n))
+    else:
+        return int(np.ceil(n))
+
+
 class ProjectSettings:
     def __init__(self, sim_start=2000, sim_end=2035, sim_dt=0.25):
         self._sim_start = sim_start
@@ -73,7 +95,7 @@ class ProjectSettings:
 
     @sim_end.setter
     def sim_end(self, sim_end):
-        self._sim_end = self.sim_start + np.ceil((sim_end - self.sim_start) / self.sim_dt) * self.sim_dt
+        self._sim_end = self.sim_start + _n_steps(self.sim_start, sim_end, self.sim_dt) * self.sim_dt
         if sim_end != self._sim_end:
             logger.info(f"Changing sim end from {sim_end} to {self._sim_end} ({(self._sim_end - self._sim_start) / self._sim_dt:.0f} timesteps)")
 
@@ -95,7 +117,7 @@ class ProjectSettings:
 
         """
 
-        return np.linspace(self.sim_start, self.sim_end, int((self.sim_end - self.sim_start) / self.sim_dt) + 1)
+        return np.linspace(self.sim_start, self.sim_end, _n_steps(self.sim_start, self.sim_end, self.sim_dt) + 1)
 
     def update_time_vector(self, start: float = None, end: float = None, dt: float = None) -> None:
         """
